@@ -51,6 +51,9 @@ type APIHistory struct {
 	// Stale is set (so the plan is older than the maximum by a wide margin).
 	MaxSubmitMs int
 	Stale       bool
+	// NoRecovery constructs the Workstream with WithNoRecovery (nothing to recover on a fresh store: every clause of
+	// C12 applies unchanged).
+	NoRecovery bool `json:",omitempty"`
 }
 
 type startCall struct {
@@ -112,6 +115,9 @@ func RunAPI(h *APIHistory, res *vprop.Result) {
 	var opts []coercion.Option
 	if h.MaxSubmitMs > 0 {
 		opts = append(opts, coercion.WithMaxSubmit(time.Duration(h.MaxSubmitMs)*time.Millisecond))
+	}
+	if h.NoRecovery {
+		opts = append(opts, coercion.WithNoRecovery())
 	}
 	stopCtl := make(chan struct{})
 	go l.controller(stopCtl)
@@ -314,6 +320,53 @@ func RunAPI(h *APIHistory, res *vprop.Result) {
 	case <-time.After(stallWindow + 5*time.Second):
 		stalled = true
 	}
+	// epilogue: "starting a plan that is already running or has finished is rejected without side effects" — every plan
+	// that reached a terminal state is started once more (after its submission has become older than the configured
+	// maximum, when there is one) and the stored plan is compared before and after that Start
+	type epilogue struct {
+		plan int
+		err  error
+		diff string
+	}
+	var epis []epilogue
+	if !stalled && !failed {
+		for pi := range h.Plans {
+			if !submitted[pi] {
+				continue
+			}
+			before, err := inner.Read(ctx, ids[pi])
+			if err != nil || before == nil || before.State == nil || !finished(before.State.Status) {
+				continue
+			}
+			if h.MaxSubmitMs > 0 {
+				if age, want := time.Since(submitAt[pi]), time.Duration(h.MaxSubmitMs+30)*time.Millisecond; age < want {
+					time.Sleep(want - age)
+				}
+			}
+			var serr error
+			guard("Start", func() { serr = ws.Start(ctx, ids[pi]) })
+			l.api(EvStartRet, pi, serr)
+			if serr == nil {
+				// wrongly accepted: let the second execution show in the log (bounded)
+				for i := 0; i < 400; i++ {
+					time.Sleep(500 * time.Microsecond)
+					if since, busy := l.quiet(); !busy && since > 5*time.Millisecond {
+						break
+					}
+				}
+			} else {
+				time.Sleep(time.Millisecond)
+			}
+			after, err := inner.Read(ctx, ids[pi])
+			e := epilogue{plan: pi, err: serr}
+			if err != nil {
+				e.diff = "plan unreadable after the Start: " + err.Error()
+			} else {
+				e.diff = samePlanState(before, after)
+			}
+			epis = append(epis, e)
+		}
+	}
 	time.Sleep(3 * time.Millisecond)
 	evs := l.snapshotEvents()
 	if failed {
@@ -334,6 +387,17 @@ func RunAPI(h *APIHistory, res *vprop.Result) {
 			res.Fail("C12/executed-twice", "%s was invoked %d times: the plan executed more than once\n%s", tag, len(invs), FormatEvents(evs, 60))
 			return
 		}
+	}
+	for _, e := range epis {
+		if e.err == nil {
+			res.Fail("C12/finished-plan-started-again", "plan p%d had finished; another Start returned nil\n%s", e.plan, FormatEvents(evs, 40))
+			return
+		}
+		if e.diff != "" {
+			res.Fail("C12/rejected-start-modified-plan", "plan p%d had finished; a further Start was rejected (%v) but the stored plan changed: %s", e.plan, e.err, e.diff)
+			return
+		}
+		res.Label("finished-plan-restart-rejected-without-side-effects")
 	}
 	for pi := range h.Plans {
 		var mine []*startCall
